@@ -9,146 +9,176 @@ namespace Pegtl
 /-- How far the hooks of one `Control< Rule >::match` invocation have got. -/
 inductive HStat
   | fresh                      -- no hook yet
-  | started                    -- `start` seen
-  | acted                      -- `start`, then `apply` / `apply0`
-  | closed (k : Nat)           -- then `success` (1), `failure` (0) or `unwind` (2)
+  | started (u : Bool)         -- `start` seen; `u`: the control family that ran it defines `unwind()`
+  | acted (u : Bool)           -- `start`, then `apply` / `apply0`
+  | closed (u : Bool) (k : Nat) -- then `success` (1), `failure` (0) or `unwind` (2)
   deriving DecidableEq, Repr
 
 abbrev Frame := Nat × HStat
 
 /-- Is the way an invocation's hooks ended consistent with what the invocation returned
-    (`r`: 1 success, 0 local failure, 2 exception)?  `u`: the control has `unwind()`. -/
-def exitOk (u : Bool) (r : Nat) : HStat → Bool
+    (`r`: 1 success, 0 local failure, 2 exception)?  `u`: the control that ran its hooks has `unwind()`. -/
+def exitOk (r : Nat) : HStat → Bool
   | .fresh => true                                   -- an invocation without hooks of its own
-  | .started => r == 2 && !u                         -- aborted by an exception, no `unwind()` to call
-  | .acted => r == 2 && !u
-  | .closed k => (k == r && (r != 2 || u)) || (k == 1 && r == 2)   -- last: a wrapping action class (`limit_bytes`) raised after the rule had matched
+  | .started u => r == 2 && !u                       -- aborted by an exception, no `unwind()` to call
+  | .acted u => r == 2 && !u
+  | .closed u k => (k == r && (r != 2 || u)) || (k == 1 && r == 2)   -- last: a wrapping action class (`limit_bytes`) raised after the rule had matched
 
-/-- One step of the automaton. The stack holds one frame per open invocation. -/
-def hookStep (u : Bool) (s : List Frame) (e : Ev) : Option (List Frame) :=
+/-- Under a `must_if< Errors >` control the `failure` hook of a rule that has a message raises: the invocation's hooks end
+    with `failure` and the invocation is left by an exception (`mf`: this rule raises on failure). -/
+def exitOkM (mf : Bool) (r : Nat) (st : HStat) : Bool :=
+  exitOk r st || (mf && r == 2 && (match st with | .closed _ 0 => true | _ => false))
+
+/-- One step of the automaton. The stack holds one frame per open invocation; `uOf k`: control
+    family `k` defines `unwind()`. -/
+def hookStep (uOf : Nat → Bool) (mf : Nat → Bool) (s : List Frame) (e : Ev) : Option (List Frame) :=
   match e, s with
-  | .enter i _ _ _, s => some ((i, .fresh) :: s)
-  | .start i _, (j, .fresh) :: s => if i = j then some ((j, .started) :: s) else none
-  | .apply i _ _ _, (j, .started) :: s => if i = j then some ((j, .acted) :: s) else none
-  | .apply0 i _ _, (j, .started) :: s => if i = j then some ((j, .acted) :: s) else none
-  | .success i _, (j, .started) :: s => if i = j then some ((j, .closed 1) :: s) else none
-  | .success i _, (j, .acted) :: s => if i = j then some ((j, .closed 1) :: s) else none
-  | .failure i _, (j, .started) :: s => if i = j then some ((j, .closed 0) :: s) else none
-  | .failure i _, (j, .acted) :: s => if i = j then some ((j, .closed 0) :: s) else none
-  | .unwind i _, (j, .started) :: s => if i = j then some ((j, .closed 2) :: s) else none
-  | .unwind i _, (j, .acted) :: s => if i = j then some ((j, .closed 2) :: s) else none
+  | .enter i _ _ _ _, s => some ((i, .fresh) :: s)
+  | .start i _ k, (j, .fresh) :: s => if i = j then some ((j, .started (uOf k)) :: s) else none
+  | .apply i _ _ _, (j, .started u) :: s => if i = j then some ((j, .acted u) :: s) else none
+  | .apply0 i _ _, (j, .started u) :: s => if i = j then some ((j, .acted u) :: s) else none
+  | .success i _, (j, .started u) :: s => if i = j then some ((j, .closed u 1) :: s) else none
+  | .success i _, (j, .acted u) :: s => if i = j then some ((j, .closed u 1) :: s) else none
+  | .failure i _, (j, .started u) :: s => if i = j then some ((j, .closed u 0) :: s) else none
+  | .failure i _, (j, .acted u) :: s => if i = j then some ((j, .closed u 0) :: s) else none
+  | .unwind i _, (j, .started u) :: s => if i = j then some ((j, .closed u 2) :: s) else none
+  | .unwind i _, (j, .acted u) :: s => if i = j then some ((j, .closed u 2) :: s) else none
   | .raise _ _, s => some s
   | .sctor _, s => some s
   | .ssucc _ _ _, s => some s
   | .sdtor _, s => some s
-  | .exit i r _, (j, st) :: s => if i = j ∧ exitOk u r st = true then some s else none
+  | .ruleApply _ _ _ _, s => some s
+  | .exit i r _, (j, st) :: s => if i = j ∧ exitOkM (mf j) r st = true then some s else none
   | _, _ => none
 
-def runHooks (u : Bool) : List Frame → List Ev → Option (List Frame)
+def runHooks (u : Nat → Bool) (mf : Nat → Bool) : List Frame → List Ev → Option (List Frame)
   | s, [] => some s
-  | s, e :: es => match hookStep u s e with
-    | some s' => runHooks u s' es
+  | s, e :: es => match hookStep u mf s e with
+    | some s' => runHooks u mf s' es
     | none => none
 
-theorem runHooks_append (u : Bool) (s : List Frame) (a b : List Ev) :
-    runHooks u s (a ++ b) = (runHooks u s a).bind (fun s' => runHooks u s' b) := by
+theorem runHooks_append (u : Nat → Bool) (mf : Nat → Bool) (s : List Frame) (a b : List Ev) :
+    runHooks u mf s (a ++ b) = (runHooks u mf s a).bind (fun s' => runHooks u mf s' b) := by
   induction a generalizing s with
   | nil => rfl
   | cons e es ih =>
     simp only [List.cons_append, runHooks]
-    cases hookStep u s e with
+    cases hookStep u mf s e with
     | none => rfl
     | some s' => exact ih s'
 
 /-- A trace that the automaton accepts from any stack, returning to that stack: a sequence of
     complete, properly nested invocations. -/
-def HL (u : Bool) (l : List Ev) : Prop := ∀ s, runHooks u s l = some s
+def HL (u : Nat → Bool) (mf : Nat → Bool) (l : List Ev) : Prop := ∀ s, runHooks u mf s l = some s
 
-theorem HL_closed (u : Bool) : RawClosed (HL u) where
+theorem HL_closed (u : Nat → Bool) (mf : Nat → Bool) : RawClosed (HL u mf) where
   nil := fun _ => rfl
   app := fun ha hb s => by rw [runHooks_append, ha s]; exact hb s
   raise := fun _ _ _ => rfl
   sctor := fun _ _ => rfl
   ssucc := fun _ _ _ _ => rfl
   sdtor := fun _ _ => rfl
+  ract := fun _ _ _ _ _ => rfl
 
 /-- Running a prefix that is itself balanced does not disturb the stack. -/
-theorem runHooks_HL {u : Bool} {l : List Ev} (h : HL u l) (s : List Frame) (rest : List Ev) :
-    runHooks u s (l ++ rest) = runHooks u s rest := by
+theorem runHooks_HL {u : Nat → Bool} {mf : Nat → Bool} {l : List Ev} (h : HL u mf l) (s : List Frame) (rest : List Ev) :
+    runHooks u mf s (l ++ rest) = runHooks u mf s rest := by
   rw [runHooks_append, h s]; rfl
 
-/-- The tail `afterBody` adds after the body's trace, run on the frame `(i, started)`. -/
-theorem afterBody_hooks (cx : Ctx) (i : Nat) (a : AMode) (act : ActionSpec) (sd : Nat) (saved : Cursor) (r : Ret) (s : List Frame)
-    (hin : HL cx.unwind r.raw) :
-    ∃ stt, runHooks cx.unwind ((i, .started) :: s) (afterBody cx i a act sd saved r).raw = some ((i, stt) :: s) ∧
-      exitOk cx.unwind (afterBody cx i a act sd saved r).res.code stt = true := by
+theorem exitOkM_of {mf : Bool} {r : Nat} {st : HStat} (h : exitOk r st = true) : exitOkM mf r st = true := by
+  simp [exitOkM, h]
+
+/-- The failure hook on a frame whose `start` has been seen (`stt0` is `started` or `acted`). -/
+theorem failureHook_hooks (uOf : Nat → Bool) (mf : Nat → Bool) (cx : Ctx) (i : Nat) (c : Cursor) (r : Ret) (s : List Frame)
+    (u : Bool) (stt0 : HStat) (h0 : stt0 = .started u ∨ stt0 = .acted u) (hm : i ∈ cx.msgs → mf i = true)
+    (hin : runHooks uOf mf ((i, .started u) :: s) r.raw = some ((i, stt0) :: s)) :
+    ∃ stt, runHooks uOf mf ((i, .started u) :: s) (failureHook cx i c r).raw = some ((i, stt) :: s) ∧
+      exitOkM (mf i) (failureHook cx i c r).res.code stt = true := by
+  unfold failureHook
+  split
+  · rename_i hmem
+    refine ⟨.closed u 0, ?_, by simp [exitOkM, Res.code, hm hmem]⟩
+    rw [runHooks_append, hin]
+    rcases h0 with rfl | rfl <;> simp [runHooks, hookStep]
+  · refine ⟨.closed u 0, ?_, by simp [exitOkM, exitOk, Res.code]⟩
+    rw [runHooks_append, hin]
+    rcases h0 with rfl | rfl <;> simp [runHooks, hookStep]
+
+/-- The tail `afterBody` adds after the body's trace, run on the frame `(i, started)` of a control
+    that has `unwind()` iff `cx.unwind`. -/
+theorem afterBody_hooks (uOf : Nat → Bool) (mf : Nat → Bool) (cx : Ctx) (i : Nat) (a : AMode) (act : ActionSpec) (sd : Nat) (saved : Cursor) (r : Ret) (s : List Frame)
+    (hm : i ∈ cx.msgs → mf i = true) (hin : HL uOf mf r.raw) :
+    ∃ stt, runHooks uOf mf ((i, .started cx.unwind) :: s) (afterBody cx i a act sd saved r).raw = some ((i, stt) :: s) ∧
+      exitOkM (mf i) (afterBody cx i a act sd saved r).res.code stt = true := by
   unfold afterBody
   split
   · -- exception in the body
     rename_i e he
     cases hu : cx.unwind with
     | true =>
-      refine ⟨.closed 2, ?_, by simp [exitOk, Res.code, he]⟩
-      simp only [hu, if_true] at *
-      rw [runHooks_HL (by simpa [hu] using hin)]
+      refine ⟨.closed true 2, ?_, exitOkM_of (by simp [exitOk, Res.code, he])⟩
+      simp only [if_true] at *
+      rw [runHooks_HL hin]
       simp [runHooks, hookStep]
     | false =>
-      refine ⟨.started, ?_, by simp [exitOk, Res.code, he]⟩
-      simp only [hu] at *
-      simpa using (by simpa [hu] using hin : HL false r.raw) _
-  · rename_i hf
-    refine ⟨.closed 0, ?_, by simp [exitOk, Res.code, hf]⟩
-    rw [runHooks_HL hin]
-    simp [runHooks, hookStep]
+      refine ⟨.started false, ?_, exitOkM_of (by simp [exitOk, Res.code, he])⟩
+      simpa using hin _
+  · exact failureHook_hooks uOf mf cx i _ r s cx.unwind (.started cx.unwind) (Or.inl rfl) hm (hin _)
   · rename_i hok
     simp only
     split
-    · refine ⟨.closed 1, ?_, by simp [exitOk, Res.code, hok]⟩
+    · refine ⟨.closed cx.unwind 1, ?_, exitOkM_of (by simp [exitOk, Res.code, hok])⟩
       rw [runHooks_HL hin]
       simp [runHooks, hookStep]
     · -- the action throws
       cases hu : cx.unwind with
       | true =>
-        refine ⟨.closed 2, ?_, by simp [exitOk, Res.code]⟩
-        simp only [hu, if_true, List.append_assoc]
-        rw [runHooks_HL (by simpa [hu] using hin)]
+        refine ⟨.closed true 2, ?_, exitOkM_of (by simp [exitOk, Res.code])⟩
+        simp only [if_true, List.append_assoc]
+        rw [runHooks_HL hin]
         unfold actEvent
         split <;> simp [runHooks, hookStep]
       | false =>
-        refine ⟨.acted, ?_, by simp [exitOk, Res.code]⟩
-        simp only [hu, List.append_assoc]
-        rw [runHooks_HL (by simpa [hu] using hin)]
+        refine ⟨.acted false, ?_, exitOkM_of (by simp [exitOk, Res.code])⟩
+        simp only [List.append_assoc]
+        rw [runHooks_HL hin]
         unfold actEvent
         split <;> simp [runHooks, hookStep]
-    · refine ⟨.closed 0, ?_, by simp [exitOk, Res.code]⟩
+    · -- the action vetoes: then the failure hook
+      refine failureHook_hooks uOf mf cx i _ _ s cx.unwind (.acted cx.unwind) (Or.inr rfl) hm ?_
+      simp only
       rw [runHooks_HL hin]
       unfold actEvent
       split <;> simp [runHooks, hookStep]
-    · refine ⟨.closed 1, ?_, by simp [exitOk, Res.code, hok]⟩
+    · refine ⟨.closed cx.unwind 1, ?_, exitOkM_of (by simp [exitOk, Res.code, hok])⟩
       rw [runHooks_HL hin]
       unfold actEvent
       split <;> simp [runHooks, hookStep]
 
-theorem nodeCore_hooks {rec : Rec} (cx : Ctx) (hrec : QRec (HL cx.unwind) rec) (k i : Nat) (nd : Node) (a : AMode)
+/-- The rules the run's `must_if` control raises for. -/
+def Ctx.mf (cx : Ctx) (i : Nat) : Bool := cx.msgs.contains i
+
+theorem nodeCore_hooks {rec : Rec} (cx : Ctx) (hrec : QRec (HL cx.unwindOf cx.mf) rec) (k i : Nat) (nd : Node) (a : AMode)
     (m : RMode) (env : Env) (st : St) (r : Ret) (s : List Frame)
     (h : nodeCore cx rec k i nd a m env st = some r) :
-    ∃ stt, runHooks cx.unwind ((i, .fresh) :: s) r.raw = some ((i, stt) :: s) ∧ exitOk cx.unwind r.res.code stt = true := by
+    ∃ stt, runHooks cx.unwindOf cx.mf ((i, .fresh) :: s) r.raw = some ((i, stt) :: s) ∧ exitOkM (cx.mf i) r.res.code stt = true := by
   unfold nodeCore at h
   split at h
-  · have hq := body_raw (HL_closed cx.unwind) hrec cx k _ _ _ _ _ _ h
+  · have hq := body_raw (HL_closed cx.unwindOf cx.mf) hrec cx k _ _ _ _ _ _ h
     exact ⟨.fresh, hq _, rfl⟩
   · simp only [Option.map_eq_some_iff] at h
     obtain ⟨r0, h0, rfl⟩ := h
-    have hq := body_raw (HL_closed cx.unwind) hrec cx k _ _ _ _ _ _ h0
-    obtain ⟨stt, h1, h2⟩ := afterBody_hooks cx i a (cx.actOf env i nd) env.sd st.cur r0 s hq
+    have hq := body_raw (HL_closed cx.unwindOf cx.mf) hrec cx k _ _ _ _ _ _ h0
+    obtain ⟨stt, h1, h2⟩ := afterBody_hooks cx.unwindOf cx.mf (cx.withCtl env.ctl) i a (cx.actOf env i nd) env.sd st.cur r0 s
+      (fun hm => by simpa [Ctx.mf] using Ctx.mem_withCtl_msgs hm) hq
     refine ⟨stt, ?_, by simpa using h2⟩
     simp only [guardRestore_raw, runHooks, hookStep, if_true]
     exact h1
 
 /-- Every invocation's trace is a complete, properly nested, truthful hook protocol. -/
-theorem nodeCall_hooks {rec : Rec} (cx : Ctx) (hrec : QRec (HL cx.unwind) rec) (k i : Nat) (a : AMode)
+theorem nodeCall_hooks {rec : Rec} (cx : Ctx) (hrec : QRec (HL cx.unwindOf cx.mf) rec) (k i : Nat) (a : AMode)
     (m : RMode) (env : Env) (st : St) (r : Ret) (h : nodeCall cx rec k i a m env st = some r) :
-    HL cx.unwind r.raw := by
+    HL cx.unwindOf cx.mf r.raw := by
   unfold nodeCall at h
   split at h
   · exact absurd h (by simp)
@@ -157,8 +187,8 @@ theorem nodeCall_hooks {rec : Rec} (cx : Ctx) (hrec : QRec (HL cx.unwind) rec) (
     obtain ⟨r0, h0, rfl⟩ := h
     intro s
     -- whatever the wrapper, the inner trace runs on the fresh frame and ends consistently
-    have key : ∃ stt, runHooks cx.unwind ((i, .fresh) :: s) r0.raw = some ((i, stt) :: s) ∧
-        exitOk cx.unwind r0.res.code stt = true := by
+    have key : ∃ stt, runHooks cx.unwindOf cx.mf ((i, .fresh) :: s) r0.raw = some ((i, stt) :: s) ∧
+        exitOkM (cx.mf i) r0.res.code stt = true := by
       split at h0
       · exact nodeCore_hooks cx hrec k i nd a m env st r0 s h0
       · exact ⟨.fresh, hrec _ _ _ _ _ _ h0 _, rfl⟩
@@ -182,7 +212,7 @@ theorem nodeCall_hooks {rec : Rec} (cx : Ctx) (hrec : QRec (HL cx.unwind) rec) (
           refine ⟨stt, ?_, ?_⟩
           · simp only [runHooks_append, hr, Option.bind_some, runHooks, hookStep]
           · rw [hok] at he
-            cases stt <;> simp_all [exitOk, Res.code]
+            cases stt <;> simp_all [exitOkM, exitOk, Res.code]
         · exact ⟨stt, hr, he⟩
       · simp only [Option.map_eq_some_iff] at h0
         obtain ⟨r1, h1, rfl⟩ := h0
@@ -199,12 +229,13 @@ theorem nodeCall_hooks {rec : Rec} (cx : Ctx) (hrec : QRec (HL cx.unwind) rec) (
         simp only [List.cons_append, runHooks, hookStep, List.append_assoc]
         rw [runHooks_append, hrec _ _ _ _ _ _ h1 _]
         split <;> simp [runHooks, hookStep]
+      · exact nodeCore_hooks cx hrec k i nd a m _ st r0 s h0
     obtain ⟨stt, hr, he⟩ := key
     simp only [bracket, dropOnFail_raw, dropOnFail_res, runHooks, hookStep, List.cons_append]
     rw [runHooks_append, hr]
     simp [runHooks, hookStep, he]
 
-theorem run_hooks (cx : Ctx) : ∀ n, QRec (HL cx.unwind) (run cx n) := by
+theorem run_hooks (cx : Ctx) : ∀ n, QRec (HL cx.unwindOf cx.mf) (run cx n) := by
   intro n
   induction n with
   | zero => intro j a m env st r h; simp [run] at h
